@@ -544,10 +544,10 @@ func (fr *frame) visit(instr ssa.Instruction) bool {
 	case *ssa.Go:
 		fn, args := fr.prepareCall(&ins.Call)
 		in.spawn(fr, fn, args)
-		if in.preemptBudget > 0 && !in.inInjection {
+		if in.spawnBudget > 0 && !in.inInjection {
 			// the new goroutine may run before its creator continues
 			if in.Choose(2) == 1 {
-				in.preemptBudget--
+				in.spawnBudget--
 				in.switchTo(in.threads[len(in.threads)-1])
 			}
 		}
